@@ -99,6 +99,25 @@ def stepJ (c : Cfg Float) (s : State Float) (op : Json) : R (State Float × Json
   match tag with
   | "gate" => pure (s, Json.null)
   | "cfg" => pure (s, Json.null)
+  -- candidate passes are oracles: they must not touch the store
+  | "noop" => pure (s, Json.null)
+  -- a candidate pass on an enabled graph goes through `_ensure_graph_store` (creates the empty store when absent)
+  | "cand" => pure (if c.enabled then some (ensure s) else s, Json.null)
+  | "candpromote" =>
+    let cl ← (← (← arrAt a 1).getArr?).toList.mapM strList
+    let ps := promoteClusters c cl
+    pure (ps.foldl (applyPromotion c) (if c.enabled then some (ensure s) else s), jArr (ps.map jPromo))
+  -- a store as a loaded snapshot would install it (edges only; `_ensure_graph_store` fills the rest)
+  | "seed" =>
+    let es ← edgesOfJ (← arrAt a 1)
+    pure (some { (emptyStore : Store Float) with edges := es }, Json.null)
+  -- candidate pass + apply: the candidates (oracle) are applied in order
+  | "merges" =>
+    let rs ← (← (← arrAt a 1).getArr?).toList.mapM mergeOf
+    pure (rs.foldl (applyMerge c) (if c.enabled then some (ensure s) else s), Json.null)
+  | "splits" =>
+    let rs ← (← (← arrAt a 1).getArr?).toList.mapM splitOf
+    pure (rs.foldl (applySplit c) (if c.enabled then some (ensure s) else s), Json.null)
   | "obs" =>
     let r := observe c s (← itemsOf (← arrAt a 1)) (← optInt (← arrAt a 2))
     pure (r.1, jObj [("k_in", jNat r.2.kIn), ("k_used", jNat r.2.kUsed), ("pairs_updated", jNat r.2.pairsUpdated)])
